@@ -195,6 +195,11 @@ def make_models(lay, literal_of):
             return byte_value(ex_, p, kind) == c8
         return fork_classes(ex, p, f, st)
 
+    def m_is_empty(ex, st, callee, args, dty, site):
+        """str::is_empty: nothing is left of the text at this position"""
+        p = _start(ex, args[0], lay)
+        return fork_classes(ex, p, lambda ex_, st_, kind: z3.BoolVal(kind[0] == "eof"), st)
+
     def m_index_from(ex, st, callee, args, dty, site):
         p = _start(ex, args[0], lay)
         rng = MM.value_of(ex, args[1])
@@ -321,6 +326,7 @@ def make_models(lay, literal_of):
         (r"^<str as (std::ops::)?Index<(std::ops::)?RangeFrom<usize>>>::index$", m_index_from),
         (r"^core::str::<impl str>::trim_start$", m_trim_start),
         (r"^core::str::<impl str>::starts_with::<char>$", m_starts_with_char),
+        (r"^core::str::<impl str>::is_empty$", m_is_empty),
         (r"^<&Cow<'_, str> as PartialEq<&str>>::(eq|ne)$|^<Cow<'_, str> as PartialEq<&str>>::(eq|ne)$|^<&?str as PartialEq(<&?str>)?>::(eq|ne)$", m_eq_literal),
         (r"^serde_json::Deserializer::<StrRead<'_>>::from_str$", m_from_str),
         (r"^serde_json::Deserializer::<StrRead<'_>>::into_iter::<.*>$", m_into_iter),
